@@ -13,7 +13,7 @@
    [svg_colour_ok]: a colour value an anstyle::Color can hold). *)
 From Coq Require Import NArith List Bool.
 From AV Require Import Generated.Style Generated.Palette Generated.Svg Spec.Sgr Spec.Lossy Spec.SvgSpec
-  Model.Base Model.Parser Model.Wincon Model.Lossy Model.Svg Proofs.Svg.
+  Model.Base Model.Parser Model.Wincon Model.Lossy Model.Svg Proofs.Svg Generated.WinconFn Proofs.WinconGen.
 Import ListNotations.
 Local Open Scope N_scope.
 
@@ -145,3 +145,11 @@ Theorem c14_example :
                         ([102; 103; 45; 97; 110; 115; 105; 50; 53; 54; 45; 50; 48; 48], [35; 70; 70; 48; 48; 68; 55])]
     /\ map svg_line_text (svg_fg_lines d) = [[97; 38; 98]; [99]].
 Proof. eexists. split; [vm_compute; reflexivity|]. repeat split; vm_compute; reflexivity. Qed.
+
+(* ---- the tie by translation --------------------------------------------------------- *)
+
+(* the [runs] of the theorems above are those of the code translated from
+   crates/anstream/src/adapter/wincon.rs (Generated/WinconFn.v, tools/gen_fn_wincon.py) *)
+Theorem c14_translated_extract_next_is_model :
+  forall bs p c, g_extract_next bs p c = extract_next bs p c.
+Proof. exact translated_extract_next_is_model. Qed.
